@@ -56,6 +56,12 @@ def worlds(tier):
                 havoc=dict(hv, lookahead="sym", max_unplaced=0, first_pool_only=True, future=False), tasks=small(("C", "a", "b", "J", "Z")), weight=300),
             w.W("cond-series-LSF-symbolic-runtimes", w.fixed_times(w.cond_series()), w.C2, "LSF", split=9, weight=400, work_conserving=True,
                 tasks=small(("C", "a", "b", "J", "D", "c", "d", "K"))),
+            w.W("cond-uneven-havoc-release_taskgraphs-join-planned-ahead", w.fixed_times(w.cond_uneven()), w.C2, "HAVOC", split=10,
+                havoc=dict(hv, release_taskgraphs=True, max_unplaced=0, first_pool_only=True), tasks=small(("C", "a", "a2", "b", "J")), weight=800),
+            w.W("cond-with-a-fan-out-inside-one-branch-symbolic-runtimes", w.fixed_times(w.cond_fanbranch()), w.C2, "EDF", split=9, weight=400, work_conserving=True,
+                tasks=small(("C", "a", "x", "x1", "x2", "x3", "xf", "J"))),
+            w.W("cond-nested-EDF-symbolic-runtimes", w.fixed_times(w.cond_nested()), w.C1, "FIFO", split=9, weight=400, work_conserving=True,
+                tasks=small(("C", "a", "D", "c", "d", "K", "J"))),
             w.W("cond-nested-resolved-at-submission", [dict(w.cond_nested()[0], release=0, via_jobgraph=True)], w.C2, "EDF", split=8, weight=100, work_conserving=True,
                 tasks={t: {"strategies": [{"rt": RT3}]} for t in ("C", "a", "D", "c", "d", "K", "J")}),
         ]
